@@ -188,6 +188,7 @@ type Worker struct {
 	stubs       map[string]Value
 	known       map[*Term]bool
 	maxDec      int
+	skipModel   *ssa.Function
 	opaqueN     int
 
 	// stats
